@@ -162,6 +162,59 @@ def rule_table_qasm(ctx: Ctx) -> None:
                      func=f.name, construct=f"qasm: wrapper member name '{gname}' is not a single letter")
 
 
+def rule_declares_used(ctx: Ctx) -> None:
+    """qasm.declares-used: a multi-line idiom (`measure ...; if (c==1) <g> <target>;`) uses a one-qubit gate <g> that openQASM 2.0 only knows
+    when it was declared: the declaration the info function records (third argument of OpenQASMInfo) is borrowed from the info function of
+    exactly that gate — `<f>_info().definitions[k]` with f's own gate name == <g>.  Declaring x for an idiom that applies z leaves `z`
+    undeclared for a standard reader whenever the circuit has no Z gate of its own."""
+    repo = ctx.repo
+    oq = repo.module(OQ)
+    n = 0
+    for cname, (gname, multi, f) in sorted(qasm_names(repo).items()):
+        if not multi:
+            continue
+        doc = {id(b.value) for x in ast.walk(f) if isinstance(x, (ast.FunctionDef, ast.Module)) for b in x.body[:1]
+               if isinstance(b, ast.Expr) and isinstance(b.value, ast.Constant) and isinstance(b.value.value, str)}
+        letters = set()
+        for s_ in [x for x in ast.walk(f) if isinstance(x, ast.Constant) and isinstance(x.value, str) and id(x) not in doc]:
+            for mt in re.finditer(r"\)\s*([a-z])\s*$|\)\s*([a-z])\s+\{?", s_.value):
+                letters.add(mt.group(1) or mt.group(2))
+        ret = [c for c in calls_in(f) if call_attr(c) == "OpenQASMInfo" or (isinstance(c.func, ast.Name) and c.func.id == "OpenQASMInfo")]
+        if len(ret) != 1 or len(ret[0].args) < 3 or not letters:
+            continue
+        d = ret[0].args[2]
+        defs = {a.targets[0].id: a.value for a in ast.walk(f) if isinstance(a, ast.Assign) and len(a.targets) == 1 and isinstance(a.targets[0], ast.Name)}
+        for _ in range(3):
+            if isinstance(d, ast.Name) and d.id in defs:
+                d = defs[d.id]
+        src_calls = [c for c in ast.walk(d) if isinstance(c, ast.Call) and isinstance(c.func, ast.Name) and c.func.id.endswith("_info")]
+        if not src_calls:
+            continue   # a literal declaration of its own: judged by the header rules
+        declared = set()
+        for c in src_calls:
+            sf = oq.find(c.func.id)
+            if not isinstance(sf, ast.FunctionDef):
+                raise AnalysisError(f"{OQ}::{f.name}: declaration source `{c.func.id}` not found")
+            r2 = [x for x in calls_in(sf) if (call_attr(x) == "OpenQASMInfo" or (isinstance(x.func, ast.Name) and x.func.id == "OpenQASMInfo")) and x.args
+                  and isinstance(x.args[0], ast.Constant)]
+            if len(r2) != 1:
+                raise AnalysisError(f"{OQ}::{sf.name}: OpenQASMInfo(<name literal>, ...) not found")
+            declared.add(r2[0].args[0].value)
+        n += 1
+        ctx.touch(oq, f)
+        miss = sorted(letters - declared)
+        if miss:
+            ctx.fail("qasm.declares-used", oq, ret[0],
+                     f"{cname} is exported as an idiom that applies `{miss[0]}` to the target, but the declaration it records is that of {sorted(declared)} "
+                     f"(`{short(ret[0].args[2], 60)}`): a circuit with this operation and no {miss[0].upper()} gate of its own exports text in which `{miss[0]}` is "
+                     f"used without being declared, which a standard openQASM 2.0 reader rejects", func=f.name,
+                     construct=f"qasm: {cname} idiom uses {miss[0]}, declares {sorted(declared)}")
+        else:
+            ctx.ok("qasm.declares-used", oq, ret[0], what=f"{cname}: idiom gate {sorted(letters)} declared")
+    if n == 0:
+        raise AnalysisError("qasm.declares-used: no multi-line idiom with a borrowed declaration found")
+
+
 def rule_wrapper_per_operation(ctx: Ctx) -> None:
     """qasm.per-operation: single_qubit_wrapper_info contributes one body statement (and one letter of the composite name) for *every*
     element of the wrapper's operation list that has a gate name; the only elements it may skip are those whose gate name is empty
@@ -763,6 +816,7 @@ def run(ctx: Ctx) -> None:
     rule_header_cover(ctx)
     rule_table_json(ctx)
     rule_table_qasm(ctx)
+    rule_declares_used(ctx)
     rule_wrapper_export_order(ctx)
     rule_derived_fields(ctx)
     rule_export_determinism(ctx)
@@ -772,6 +826,7 @@ def run(ctx: Ctx) -> None:
 
 
 KNOCKOUTS = [
+    Knockout("classical-cz-declares-x", OQ, sub_once("    definition = sigma_z_info().definitions[0]\n\n    def usage(q_reg, q_reg_type, c_reg):\n        return (\n            f\"measure {q_reg_type[0]}{q_reg[0]}[0] -> c{c_reg[0]}[0]; \\n\"\n            f\"if (c{c_reg[0]}==1) z", "    definition = sigma_x_info().definitions[0]\n\n    def usage(q_reg, q_reg_type, c_reg):\n        return (\n            f\"measure {q_reg_type[0]}{q_reg[0]}[0] -> c{c_reg[0]}[0]; \\n\"\n            f\"if (c{c_reg[0]}==1) z"), "qasm.declares-used", "ClassicalCZ"),
     Knockout("wrapper-info-skips-repeated-gates", OQ, sub_once("        gate_name_dict[oq_info.gate_name] = oq_info\n        if (\n            oq_info.gate_name == \"\"\n        ):  # this is a gate we don't actually need (effectively identity)\n            continue\n", "        if oq_info.gate_name in gate_name_dict:\n            continue\n        gate_name_dict[oq_info.gate_name] = oq_info\n"), "qasm.per-operation", "skipped for another reason"),
     Knockout("json-wrapper-drops-identities", "graphiq/circuit/circuit_dag.py", sub_once("                    if name:\n                        op_list.append(name)", "                    if name and g is not ops.Identity:\n                        op_list.append(name)"), "json.wrapper-complete", "op_list filtered"),
     Knockout("classical-op-no-default-ctor", OPS, sub_once('        control=0,\n        control_type="e",\n        target=0,\n        target_type="p",\n        c_register=0,\n        noise=nm.NoNoise(),\n    ):\n', '        control,\n        control_type,\n        target,\n        target_type,\n        c_register=0,\n        noise=nm.NoNoise(),\n    ):\n'), "json.ctor", "not default-constructible", on_fixed_only=True),
